@@ -61,6 +61,8 @@ class Gen:
     def reason(self, p=0.2, allowed=True):
         if not allowed or self.rnd.random() >= p:
             return None
+        if self.rnd.random() < 0.25:
+            return ""                                    # deprecated with an empty reason
         return self.rnd.choice(["No longer supported", "use other"] + (TEXTS[:8] if self.adv else []))
 
     def wrap(self, t, p_list=0.25, p_nn=0.3, depth=0):
